@@ -402,11 +402,17 @@ def report_violations(ctx, case: Case, viol: List[Dict[str, Any]], mutation: Opt
     if fault is not None:
         fdesc = next((f for f in case.faultlog if f.get("injected")), None)
         if fdesc is not None:
-            key += f":after-failed-{fdesc['call']}-of-{powerloss.kind_of(_final_guess(fdesc['path']))}"
+            key += f":after-failed-{fdesc['call']}-of-" + ("dir-" + (fdesc['path'].replace("/", "_") if fdesc['path'] != "." else "root")
+                                                          if fdesc.get("isdir") else powerloss.kind_of(_final_guess(fdesc['path'])))
     trace_txt = powerloss.describe_trace(case.raw, case.root)
     n = v["prefix"] or 0
-    what = (f"power loss after call #{n} ({v.get('last_call')}) under outcome {v['outcome']}: the surviving pointer references "
-            f"{prob.get('file')} which is {prob.get('problem')} ({prob.get('detail', '')}) -- scenario {steps}, tracer {case.mode}")
+    if "live_pointer" in prob:
+        what = (f"power loss after call #{n} (the acknowledgement of step {prob.get('step')}) under outcome {v['outcome']}: the acknowledged "
+                f"commit is not durable -- the pointer every process sees names {prob.get('live_pointer')!r}, the pointer on disk is "
+                f"{prob.get('durable_pointer')!r} -- scenario {steps}, tracer {case.mode}")
+    else:
+        what = (f"power loss after call #{n} ({v.get('last_call')}) under outcome {v['outcome']}: the surviving pointer references "
+                f"{prob.get('file')} which is {prob.get('problem')} ({prob.get('detail', '')}) -- scenario {steps}, tracer {case.mode}")
     if fdesc is not None:
         what += (f"; injected fault: durability call #{fdesc['i']} ({fdesc['call']} of {fdesc['path']}, in {fdesc['module']}) raised OSError(EIO) "
                  f"and the library went on to acknowledge: steps ok = {[r.get('ok') for r in case.results]}")
@@ -489,8 +495,8 @@ FAULT_SCENARIOS: List[List[Any]] = [
 
 
 def is_dir_sync_fault(f: Dict[str, Any]) -> bool:
-    """open / fsync of a DIRECTORY: the library tolerates its failure by design ("directory fsync not
-    supported - acceptable"; DESIGN.md C16 'Not in the model'), so these faults are evaluated but only counted."""
+    """open / fsync of a DIRECTORY (the last call of a publish: it persists the rename).  Counted separately in the
+    evidence; judged like every other fault: the property demands the directory entry persisted before the pointer moves."""
     return bool(f.get("isdir")) and f["call"] in ("open", "fsync")
 
 
@@ -507,7 +513,7 @@ def oracle_faults(ctx, scenarios: List[List[Any]]) -> List[Case]:
                 specs.append({"steps": pc.steps, "mode": "inproc", "fault": {"index": f["i"], "kind": "short_write"}, "_expect": f})
     fcases = make_cases(ctx, specs)
     stats = {"scenarios": len(probes), "durability_calls": len(specs), "by_call": {}, "aborted_cleanly": 0, "swallowed_and_acknowledged": 0,
-             "dir_sync_faults_tolerated_by_design": 0, "dir_sync_faults_with_violating_prefixes": 0, "not_injected": 0}
+             "dir_sync_faults": 0, "dir_sync_faults_with_violating_prefixes": 0, "not_injected": 0}
     for sp, fc in zip(specs, fcases):
         if fc.error:
             report_unbounded(ctx, fc)
@@ -525,9 +531,10 @@ def oracle_faults(ctx, scenarios: List[List[Any]]) -> List[Case]:
         for a in ack_check(fc):
             viol.append({"prefix": a["prefix"], "outcome": "drop_all", "problems": [dict(a, problem="acknowledged commit not durable")]})
         if is_dir_sync_fault(inj):
-            stats["dir_sync_faults_tolerated_by_design"] += 1
+            # a failing directory open / fsync leaves the rename of the file just published unpersisted: the library
+            # must not go on to advance (and acknowledge) a pointer that reaches it -- judged like every other fault
+            stats["dir_sync_faults"] += 1
             stats["dir_sync_faults_with_violating_prefixes"] += 1 if viol else 0
-            continue
         report_violations(ctx, fc, viol, None)
     ctx.stats["fault_injection"] = stats
     return fcases
